@@ -138,7 +138,13 @@ def _flake_pair(case, k=None, op=None):
                 y["solution"] = {k: float(v) for k, v in case["solution"].items()}
             yaml.safe_dump(y, f)
         if k is None:
-            kf = {"int": 0, "ext": 0, "s0": K, "s_sigma_rel": 0}
+            kd = case.get("kdict")
+            if kd == "required":      # only the required keys: the optional ones take their documented meaning
+                kf = {"int": 0, "ext": 0, "s0": K}
+            elif kd == "reordered":   # optional / extra keys, any order
+                kf = {"s_sigma_rel": 0, "note": "sweep", "s0": K, "ext": 0, "int": 0}
+            else:
+                kf = {"int": 0, "ext": 0, "s0": K, "s_sigma_rel": 0}
         else:
             k["s0"] = K          # parameter sweep on ONE dict shared by all objects
             kf = k
@@ -493,6 +499,7 @@ def cases(rng, tier):
     if tier != "quick":
         flakes += [dict(kind="flake0D", K_shelf=100, start=10, stop=-45, rate=0.05, hold=[-6.0, 2000], t_tot=6000),
                    dict(kind="flake0D", K_shelf=400, start=20, stop=-50, rate=0.1, hold=[-10.0, 600], t_tot=3000)]
+    flakes += [dict(flakes[0], kdict="required"), dict(flakes[0], kdict="reordered", K_shelf=300)]
     for c in flakes:
         yield c
     P1 = dict(start=20, stop=-50, rate=0.05, hold=[-8.0, 1200], t_tot=4000)
